@@ -38,7 +38,7 @@ Inductive msg :=
 | MBitfield (len : N)       (* metadata connection only: BITFIELD header, len bytes to discard *)
 | MBitsDone.
 
-Inductive reason := RLen | RUnknownId | RPieceRole | RPieceShort | RExtBad | RFull | RHandler | REof.
+Inductive reason := RLen | RUnknownId | RPieceRole | RPieceShort | RExtBad | RFull | RHandler | REof | RPolicy.
 Inductive effect := EMsg (m : msg) | EClose (r : reason) | EFatal.
 Inductive verdict := VCont | VClose | VFatal.
 
@@ -70,9 +70,25 @@ Definition is_meta (r : role) : bool := match r with Meta => true | _ => false e
 (* uint32 `length - 2` as computed by read_message before read_start *)
 Definition sub32 (a b : N) : N := (a + 4294967296 - b) mod 4294967296.
 
+(* Which headers make the connection close is NOT fixed by the property (only that the outcome is
+   safe and independent of the segmentation).  The decoder is therefore parametric in a policy:
+   p_hdr len id   -- close on a message with this length prefix and id; decided when the 5th byte
+                     is there (e.g. "a fixed-size message with a wrong length prefix")
+   p_ext ty elen  -- close on an extension header with this type and payload length; decided when
+                     the 6th byte is there (e.g. "extension type we never advertised")
+   All framing theorems hold for EVERY policy.  The hard framing limits (length prefix above the
+   message limit, ids that have no framing rule, PIECE where the role has no piece handling,
+   extension payload above its limit) stay in the decoder: without them there is no framing. *)
+Record policy := mk_policy { p_hdr : N -> N -> bool; p_ext : N -> N -> bool }.
+
+(* the policy of the source tree the constants were extracted from *)
+Definition pol_src : policy :=
+  mk_policy (fun _ _ => false) (fun ty _ => Params.c03_ext_first_invalid <=? ty).
+
 (* The `switch (buf->read_8())` of read_message for message id `id` and length prefix `len`;
    l is the unread part of the buffer starting at the length prefix (at least 5 bytes). *)
-Definition one_body (r : role) (len id : N) (l : list N) : hdr :=
+Definition one_body (pol : policy) (r : role) (len id : N) (l : list N) : hdr :=
+  if p_hdr pol len id then Bad RPolicy else
   if id =? 0 then Got MChoke 5 else
   if id =? 1 then Got MUnchoke 5 else
   if id =? 2 then Got MInterested 5 else
@@ -110,7 +126,7 @@ Definition one_body (r : role) (len id : N) (l : list N) : hdr :=
     | Some ty =>
       let elen := sub32 len Params.c03_ext_hdr_sub in
       (* read_start: communication_error first, then the internal_error test *)
-      if (Params.c03_ext_first_invalid <=? ty) || (Params.c03_ext_limit <? elen) then Bad RExtBad else
+      if p_ext pol ty elen || (Params.c03_ext_limit <? elen) then Bad RExtBad else
       if 2147483648 <=? elen then HFatal else
       Got (MExt ty elen) 6
     end
@@ -121,7 +137,7 @@ Definition one_body (r : role) (len id : N) (l : list N) : hdr :=
   else Bad RUnknownId.
 
 (* One read_message() call on the unread bytes l.  Got m n: n header bytes consumed. *)
-Definition one_msg (r : role) (l : list N) : hdr :=
+Definition one_msg (pol : policy) (r : role) (l : list N) : hdr :=
   if (length l <? 4)%nat then NeedMore else
   match rd32 l 0 with
   | None => HFault
@@ -131,7 +147,7 @@ Definition one_msg (r : role) (l : list N) : hdr :=
     if Params.c03_max_msg_len <? len then Bad RLen else
     match rd l 4 with
     | None => HFault
-    | Some id => one_body r len id l
+    | Some id => one_body pol r len id l
     end
   end.
 
@@ -146,6 +162,7 @@ Section Framing.
 Variable HS : Type.
 Variable handle : HS -> msg -> HS * verdict.
 Variable rl : role.
+Variable pol : policy.
 
 (* result of decoding a run of bytes: handler state, mode, unread buffer rest, effects *)
 Inductive pres := PRes (h : HS) (m : rmode) (buf : list N) (effs : list effect) | PFault | POut.
@@ -183,7 +200,7 @@ Fixpoint feed (fuel : nat) (h : HS) (m : rmode) (l : list N) : pres :=
         | VFatal => PRes h' RClosed [] [EMsg (pay_done k); EFatal]
         end
     | RIdle =>
-      match one_msg rl l with
+      match one_msg pol rl l with
       | NeedMore => PRes h RIdle l []
       | HFault => PFault
       | Bad r => PRes h RClosed [] [EClose r]
@@ -222,7 +239,7 @@ Fixpoint feeds (fuel : nat) (h : HS) (m : rmode) (l : list N) : pres :=
         | VFatal => PRes h' RClosed [] [EMsg (pay_done k); EFatal]
         end
     | RIdle =>
-      match one_msg rl l with
+      match one_msg pol rl l with
       | NeedMore => PRes h RIdle l []
       | HFault => PFault
       | Bad r => PRes h RClosed [] [EClose r]
@@ -468,7 +485,7 @@ Fixpoint feedb (fuel : nat) (h : HS) (pend : bool) (m : rmode) (l : list N) : pr
         | VFatal => PB h' pend' false RClosed [] [EMsg (pay_done k); EFatal]
         end
     | RIdle =>
-      match one_msg rl l with
+      match one_msg pol rl l with
       | NeedMore => PB h pend false RIdle l []
       | HFault => PBFault
       | Bad r => PB h pend false RClosed [] [EClose r]
@@ -845,6 +862,7 @@ Record cfg := mk_cfg {
   c_can_unchoke : bool;       (* a free upload slot exists *)
   c_ext_verdicts : list bool; (* k-th completed extension message closes the connection
                                  (read_done -> communication_error), supplied per case *)
+  c_pol : policy;             (* the close policy probed on the implementation (or pol_src) *)
   c_ext_reply : list bool     (* k-th completed extension message generates a reply (ut_metadata request
                                  from a peer that advertised ut_metadata), supplied per case *)
 }.
@@ -930,14 +948,14 @@ Definition hinit (c : cfg) (bits : list bool) (queued unchoked recent : bool) : 
 
 Definition run_real (c : cfg) (budget : nat -> nat) (short : nat -> bool)
            (h0 : hst) (pre : list N) (segs : list (list N)) : mres hst :=
-  if is_meta (c_role c) then run_meta hst (hreal c) (c_role c) budget h0 pre segs
-  else run hst (hreal c) (c_role c) budget short h0 pre segs.
+  if is_meta (c_role c) then run_meta hst (hreal c) (c_role c) (c_pol c) budget h0 pre segs
+  else run hst (hreal c) (c_role c) (c_pol c) budget short h0 pre segs.
 
 Definition reply_real (c : cfg) (h : hst) : bool := nth (h_extn h) (c_ext_reply c) false.
 
 Definition run_b_real (c : cfg) (budget : nat -> nat) (short : nat -> bool)
            (h0 : hst) (pre : list N) (evs : list bevent) : mresb hst :=
-  run_b hst (hreal c) (c_role c) budget short (reply_real c) h0 pre evs.
+  run_b hst (hreal c) (c_role c) (c_pol c) budget short (reply_real c) h0 pre evs.
 
 Definition decode_real (c : cfg) (h0 : hst) (s : list N) : pres hst :=
-  decode hst (hreal c) (c_role c) h0 s.
+  decode hst (hreal c) (c_role c) (c_pol c) h0 s.
